@@ -1,4 +1,4 @@
-"""The name-test catalogue (harness/src/namecat.rs, `gv c02names`): every kind of user-named item × every
+"""The name-test catalogue (harness/src/nametest.rs, `gv c02names`): every kind of user-named item × every
 string the back end compares names with (re-read from the Rust by extract.c02_name_tests) × every relation a
 sloppy test could confuse.  Each program is compiled by the real pipeline; the REAL Go AST is judged by
 Go.Check (declared exactly once, declared before use, types), the printed text is parsed back, and a program
